@@ -8,8 +8,11 @@ an expression is abandoned at its first enforced violation, the operands to the 
 failing one are not evaluated; everything else still is, statement by statement (DESIGN §3.3:
 an assignment analyses its expression before it looks at the target, a call its arguments left to
 right until one fails, a comparison both sides, a body every statement).  `visFn` lists the tags
-of the leaves that are evaluated, in order, using the rule checker for "this operand failed" and
-for the scope in which the next statement is analysed.
+of the leaves that are evaluated, in order.  It threads its own lexical scope: a `let` declares its
+name whenever its expression *analysed* (a call with an argument of the wrong type still analyses,
+to the callee's result type, although the rule checker counts an enforced violation there), so on
+rejected programs the scope here follows the analyzer, not the rule checker; the two agree where
+the checker reports nothing (`Lemmas/VisitLock`).
 -/
 namespace SemVerif
 
@@ -76,82 +79,67 @@ def visIfCond (g : RGlobals) (sc : Scope) : IfCond → List Nat
   | .single e => (visE g sc e).1
   | .logic lc => visLogic g sc lc
 
+/-- the scope after a `let`: the name is declared when its expression analysed and the annotated
+type, if any, is the expression's -/
+def visLetSc (g : RGlobals) (sc : Scope) (b : LetB) : Scope :=
+  match (visE g sc b.value).2 with
+  | some t => if letTypeBad b.ty t then sc else sc.declare b.name t b.mutable
+  | none => sc
+
 mutual
-def visIf (g : RGlobals) (resTy : Ty) : IfStmt → RS → List Nat
-  | .mk cond body els elif, s =>
-    let s := if els.isSome && elif.isSome then s.viol "B10" .ifElseDuplicated "if-condition".toList else s
-    let c := visIfCond g s.push.scope cond
-    let s1 := checkIfCond g cond s.push
-    let b := visBodies g resTy body s1
-    let s2 := (checkBodies g resTy body s1).pop
-    c ++ b ++ (match els, elif with
-      | some eb, _ => visBodies g resTy eb s2.push
-      | none, some ei => visIf g resTy ei s2
-      | none, none => [])
-def visBodies (g : RGlobals) (resTy : Ty) : IfBodies → RS → List Nat
-  | .ifb l, s => visIfBody g resTy l false s
-  | .loopb l, s => visIfLoopBody g resTy l false false false s
-def visIfBody (g : RGlobals) (resTy : Ty) : List IfBodyStmt → Bool → RS → List Nat
-  | [], _, _ => []
-  | st :: tl, rc, s =>
-    let s := codeAfter rc false false s
-    match st with
-    | .letB b => (visE g s.scope b.value).1 ++ visIfBody g resTy tl rc (checkLet g b s)
-    | .bind b => (visE g s.scope b.value).1 ++ visIfBody g resTy tl rc (checkBind g b s)
-    | .call c => visCallS g s.scope c ++ visIfBody g resTy tl rc (checkCallS g c s)
-    | .ifS i => visIf g resTy i s ++ visIfBody g resTy tl rc (checkIf g resTy i s)
-    | .loop b => visLoopBody g resTy b false false false s.push ++
-        visIfBody g resTy tl rc (checkLoopBody g resTy b false false false s.push).pop
-    | .ret e => (visE g s.scope e).1 ++
-        visIfBody g resTy tl (rc || (checkNestedRet g resTy e s).2) (checkNestedRet g resTy e s).1
-def visIfLoopBody (g : RGlobals) (resTy : Ty) : List IfLoopStmt → Bool → Bool → Bool → RS → List Nat
-  | [], _, _, _, _ => []
-  | st :: tl, rc, bc, cc, s =>
-    let s := codeAfter rc bc cc s
-    match st with
-    | .letB b => (visE g s.scope b.value).1 ++ visIfLoopBody g resTy tl rc bc cc (checkLet g b s)
-    | .bind b => (visE g s.scope b.value).1 ++ visIfLoopBody g resTy tl rc bc cc (checkBind g b s)
-    | .call c => visCallS g s.scope c ++ visIfLoopBody g resTy tl rc bc cc (checkCallS g c s)
-    | .ifS i => visIf g resTy i s ++ visIfLoopBody g resTy tl rc bc cc (checkIf g resTy i s)
-    | .loop b => visLoopBody g resTy b false false false s.push ++
-        visIfLoopBody g resTy tl rc bc cc (checkLoopBody g resTy b false false false s.push).pop
-    | .ret e => (visE g s.scope e).1 ++
-        visIfLoopBody g resTy tl (rc || (checkNestedRet g resTy e s).2) bc cc (checkNestedRet g resTy e s).1
-    | .brk => visIfLoopBody g resTy tl rc true cc s
-    | .cont => visIfLoopBody g resTy tl rc bc true s
-def visLoopBody (g : RGlobals) (resTy : Ty) : List LoopStmt → Bool → Bool → Bool → RS → List Nat
-  | [], _, _, _, _ => []
-  | st :: tl, rc, bc, cc, s =>
-    let s := codeAfter rc bc cc s
-    match st with
-    | .letB b => (visE g s.scope b.value).1 ++ visLoopBody g resTy tl rc bc cc (checkLet g b s)
-    | .bind b => (visE g s.scope b.value).1 ++ visLoopBody g resTy tl rc bc cc (checkBind g b s)
-    | .call c => visCallS g s.scope c ++ visLoopBody g resTy tl rc bc cc (checkCallS g c s)
-    | .ifS i => visIf g resTy i s ++ visLoopBody g resTy tl rc bc cc (checkIf g resTy i s)
-    | .loop b => visLoopBody g resTy b false false false s.push ++
-        visLoopBody g resTy tl rc bc cc (checkLoopBody g resTy b false false false s.push).pop
-    | .ret e => (visE g s.scope e).1 ++
-        visLoopBody g resTy tl (rc || (checkNestedRet g resTy e s).2) bc cc (checkNestedRet g resTy e s).1
-    | .brk => visLoopBody g resTy tl rc true cc s
-    | .cont => visLoopBody g resTy tl rc bc true s
+def visIf (g : RGlobals) : IfStmt → Scope → List Nat
+  | .mk cond body els elif, sc =>
+    -- the condition is analysed in the (still empty) block of the if-body
+    visIfCond g ([] :: sc) cond ++ visBodies g body ([] :: sc) ++
+      (match els, elif with
+       | some eb, _ => visBodies g eb ([] :: sc)
+       | none, some ei => visIf g ei sc
+       | none, none => [])
+def visBodies (g : RGlobals) : IfBodies → Scope → List Nat
+  | .ifb l, sc => visIfBody g l sc
+  | .loopb l, sc => visIfLoopBody g l sc
+def visIfBody (g : RGlobals) : List IfBodyStmt → Scope → List Nat
+  | [], _ => []
+  | .letB b :: tl, sc => (visE g sc b.value).1 ++ visIfBody g tl (visLetSc g sc b)
+  | .bind b :: tl, sc => (visE g sc b.value).1 ++ visIfBody g tl sc
+  | .call c :: tl, sc => visCallS g sc c ++ visIfBody g tl sc
+  | .ifS i :: tl, sc => visIf g i sc ++ visIfBody g tl sc
+  | .loop b :: tl, sc => visLoopBody g b ([] :: sc) ++ visIfBody g tl sc
+  | .ret e :: tl, sc => (visE g sc e).1 ++ visIfBody g tl sc
+def visIfLoopBody (g : RGlobals) : List IfLoopStmt → Scope → List Nat
+  | [], _ => []
+  | .letB b :: tl, sc => (visE g sc b.value).1 ++ visIfLoopBody g tl (visLetSc g sc b)
+  | .bind b :: tl, sc => (visE g sc b.value).1 ++ visIfLoopBody g tl sc
+  | .call c :: tl, sc => visCallS g sc c ++ visIfLoopBody g tl sc
+  | .ifS i :: tl, sc => visIf g i sc ++ visIfLoopBody g tl sc
+  | .loop b :: tl, sc => visLoopBody g b ([] :: sc) ++ visIfLoopBody g tl sc
+  | .ret e :: tl, sc => (visE g sc e).1 ++ visIfLoopBody g tl sc
+  | .brk :: tl, sc => visIfLoopBody g tl sc
+  | .cont :: tl, sc => visIfLoopBody g tl sc
+def visLoopBody (g : RGlobals) : List LoopStmt → Scope → List Nat
+  | [], _ => []
+  | .letB b :: tl, sc => (visE g sc b.value).1 ++ visLoopBody g tl (visLetSc g sc b)
+  | .bind b :: tl, sc => (visE g sc b.value).1 ++ visLoopBody g tl sc
+  | .call c :: tl, sc => visCallS g sc c ++ visLoopBody g tl sc
+  | .ifS i :: tl, sc => visIf g i sc ++ visLoopBody g tl sc
+  | .loop b :: tl, sc => visLoopBody g b ([] :: sc) ++ visLoopBody g tl sc
+  | .ret e :: tl, sc => (visE g sc e).1 ++ visLoopBody g tl sc
+  | .brk :: tl, sc => visLoopBody g tl sc
+  | .cont :: tl, sc => visLoopBody g tl sc
 end
 
-def visBody (g : RGlobals) (resTy : Ty) : List BodyStmt → Bool → RS → List Nat
-  | [], _, _ => []
-  | st :: tl, rc, s =>
-    let s := if rc then s.viol "B12-after" .forbiddenCodeAfterReturnDeprecated wildcard else s
-    match st with
-    | .letB b => (visE g s.scope b.value).1 ++ visBody g resTy tl rc (checkLet g b s)
-    | .bind b => (visE g s.scope b.value).1 ++ visBody g resTy tl rc (checkBind g b s)
-    | .call c => visCallS g s.scope c ++ visBody g resTy tl rc (checkCallS g c s)
-    | .ifS i => visIf g resTy i s ++ visBody g resTy tl rc (checkIf g resTy i s)
-    | .loop b => visLoopBody g resTy b false false false s.push ++
-        visBody g resTy tl rc (checkLoopBody g resTy b false false false s.push).pop
-    | .expr e | .ret e => (visE g s.scope e).1 ++
-        visBody g resTy tl (checkFnRet g resTy e rc s).2 (checkFnRet g resTy e rc s).1
+def visBody (g : RGlobals) : List BodyStmt → Scope → List Nat
+  | [], _ => []
+  | .letB b :: tl, sc => (visE g sc b.value).1 ++ visBody g tl (visLetSc g sc b)
+  | .bind b :: tl, sc => (visE g sc b.value).1 ++ visBody g tl sc
+  | .call c :: tl, sc => visCallS g sc c ++ visBody g tl sc
+  | .ifS i :: tl, sc => visIf g i sc ++ visBody g tl sc
+  | .loop b :: tl, sc => visLoopBody g b ([] :: sc) ++ visBody g tl sc
+  | .expr e :: tl, sc | .ret e :: tl, sc => (visE g sc e).1 ++ visBody g tl sc
 
-/-- tags of the extension leaves the analysis of `f` evaluates, in order -/
+/-- tags of the extension leaves the analysis of `f` evaluates, in order (parameters are registered
+up to the first duplicate, as the rule checker does) -/
 def visFn (g : RGlobals) (f : FnDecl) : List Nat :=
-  visBody g f.result.toTy f.body false (checkParams f.params { scope := [[]], viols := [] })
+  visBody g f.body (checkParams f.params { scope := [[]], viols := [] }).scope
 
 end SemVerif
